@@ -28,17 +28,21 @@ func (c *verifStubChunker) Chunk(
 	return c.chunks[phase.Name], nil
 }
 
-// VerifNewDeploymentReconciler wires the real DeploymentReconciler as NewPackageDeployer /
-// NewClusterPackageDeployer do.
+// VerifNewDeploymentReconciler returns the DeploymentReconciler that the real constructors NewPackageDeployer /
+// NewClusterPackageDeployer wire into the PackageDeployer, so that the wiring itself (which adapters and list
+// factories each flavour gets) is part of what the harness runs.
 func VerifNewDeploymentReconciler(scheme *runtime.Scheme, c client.Client, cluster bool) *DeploymentReconciler {
+	var d *PackageDeployer
 	if cluster {
-		return newDeploymentReconciler(scheme, c,
-			adapters.NewClusterObjectDeployment, adapters.NewClusterObjectSlice,
-			adapters.NewClusterObjectSliceList, newGenericClusterObjectSetList)
+		d = NewClusterPackageDeployer(c, scheme, nil)
+	} else {
+		d = NewPackageDeployer(c, c, scheme, nil)
 	}
-	return newDeploymentReconciler(scheme, c,
-		adapters.NewObjectDeployment, adapters.NewObjectSlice,
-		adapters.NewObjectSliceList, newGenericObjectSetList)
+	r, ok := d.deploymentReconciler.(*DeploymentReconciler)
+	if !ok {
+		panic("PackageDeployer.deploymentReconciler is not a *DeploymentReconciler")
+	}
+	return r
 }
 
 // VerifChunkPhase runs the real chunkPhase with a chunker that returns the given chunks.
